@@ -85,6 +85,9 @@ def cases(rng, tier):
         out.append(S.scenario_case(S.gen_request_tail(rng), 'request-tail'))
     for _ in range(200 if tier == 'thorough' else 30):
         out.append(S.scenario_case(S.gen_concurrent(rng), 'concurrent'))
+    # consecutive transfers between the same stations: a late copy of a segment of the earlier one meets the later one
+    for _ in range(300 if tier == 'thorough' else 40):
+        out.append(S.scenario_case(S.gen_stale_segment(rng), 'stale-segment-of-earlier-transfer'))
     out += in_window_cases(rng, 2000 if tier == 'thorough' else 300)
     return out
 
@@ -158,7 +161,8 @@ def direct(rng, tier, focus=()):
     big = tier == 'thorough'
     fams = [('transaction', lambda r: S.gen_transaction(r, big=r.random() < 0.15, maxfaults=4), 80000 if big else 2500),
             ('concurrent', lambda r: S.gen_concurrent(r), 1500 if big else 100),
-            ('scripted-windows', lambda r: S.gen_scripted_windows(r), 1500 if big else 150)]
+            ('scripted-windows', lambda r: S.gen_scripted_windows(r), 1500 if big else 150),
+            ('stale-segment-of-earlier-transfer', lambda r: S.gen_stale_segment(r), 4000 if big else 300)]
     failures, stats = S.direct_families(rng, fams, lambda tr: S.check_c05(tr) + [x for x in S.check_c04(tr) if x['kind'] == 'timer-overdue'], focus)
     for spec in sweep_specs(rng, 'thorough') + long_specs('thorough'):
         tr, fs = S.run_checked(spec, S.check_c05, max_steps=8000)
